@@ -39,12 +39,12 @@ Proof. intros _ _ _ C E. apply altered_same_decoding; assumption. Qed.
 (* ---- refutation of the clause on the code as it is: the real wire format, a cookie with '=' appended *)
 Definition rf_O : oracles := real_O toy_mac 1.
 Definition rf_o : opts := {| key := [107]%N; timeout := Some 1200%Z; reissue := None; soe := true |}.
-Definition rf_r1 : req := {| rsrc := SNone; rt := 400; rops := [(OSetItem [97]%N (JInt 1), 400%Z)]; rexc := false |}.
+Definition rf_r1 : req := {| rsrc := SNone; rt := 400; rops := [(OSetItem [97]%N (JInt 1), 400%Z)]; rexc := false; rcb := (0%nat, 0%nat) |}.
 Definition rf_last : text :=
   match run_req rf_O rf_o None rf_r1 with Obs _ _ _ (FCookie c) => c | _ => [] end.
 Definition rf_edit : text := rf_last ++ [61]%N.                 (* the cookie followed by '=' *)
 Definition rf_chain : list req :=
-  [rf_r1; {| rsrc := SAltered rf_edit; rt := 404; rops := [(OItems, 404%Z)]; rexc := false |}].
+  [rf_r1; {| rsrc := SAltered rf_edit; rt := 404; rops := [(OItems, 404%Z)]; rexc := false; rcb := (0%nat, 0%nat) |}].
 
 Lemma altered_cookie_rejected_refuted : canonical_check = false ->
   rf_edit <> rf_last /\ wf_chain rf_chain
@@ -78,6 +78,6 @@ Qed.
 (* the premise of the partial chain theorems is satisfiable by a chain that does present an altered cookie:
    the cookie with its first character replaced (another signature) *)
 Definition rf_chain_ok : list req :=
-  [rf_r1; {| rsrc := SAltered (66%N :: tl rf_last); rt := 404; rops := [(OItems, 404%Z)]; rexc := false |}].
+  [rf_r1; {| rsrc := SAltered (66%N :: tl rf_last); rt := 404; rops := [(OItems, 404%Z)]; rexc := false; rcb := (0%nat, 0%nat) |}].
 Example ex_chain_ok : chain_ok rf_O rf_o rf_chain_ok /\ wf_chain rf_chain_ok.
 Proof. split; repeat constructor; vm_compute; reflexivity. Qed.
